@@ -204,6 +204,8 @@ class CameraViewPort:
             )
         elif isinstance(origin, (list, tuple)) and len(origin) != 2:
             raise TypeError("origin must be of length 2 if it is a list or tuple")
+        elif not isinstance(origin, (np.ndarray, list, tuple)):
+            raise TypeError("origin must be a numpy array, a list or a tuple")
 
         if isinstance(size, np.ndarray) and size.shape != VEC2I.btype.shape:
             raise TypeError(
@@ -211,6 +213,8 @@ class CameraViewPort:
             )
         elif isinstance(size, (list, tuple)) and len(size) != 2:
             raise TypeError("size must be of length 2 if it is a list or tuple")
+        elif not isinstance(size, (np.ndarray, list, tuple)):
+            raise TypeError("size must be a numpy array, a list or a tuple")
 
         self.origin = origin
         "Origin of the viewport, a 2D vector of integers"
